@@ -621,8 +621,6 @@ class InClass:
                         except ValidationError as vv:
                             if 'skip_unauthorized' in params and \
                                params['skip_unauthorized']:
-                                if index == first:
-                                    pkw['sequence-start'] = 0
                                 continue
                             raise ValidationError('(item {}): {}'.format(
                                 index, vv), sys.exc_info()[2])
@@ -651,8 +649,8 @@ class InClass:
                         if pushed:
                             pop()
 
-                    if index == first:
-                        pkw['sequence-start'] = 0
+                    # only the first element rendered is the start
+                    pkw['sequence-start'] = 0
 
                 result = join_unicode(result, encoding=self.encoding)
 
@@ -734,8 +732,6 @@ class InClass:
                     except ValidationError as vv:
                         if 'skip_unauthorized' in self.args and \
                            self.args['skip_unauthorized']:
-                            if index == 1:
-                                pkw['sequence-start'] = 0
                             continue
                         raise ValidationError(
                             f'(item {index}): {vv}',
@@ -764,8 +760,8 @@ class InClass:
                 finally:
                     if pushed:
                         pop()
-                if index == 0:
-                    pkw['sequence-start'] = 0
+                # only the first element rendered is the start
+                pkw['sequence-start'] = 0
 
             result = join_unicode(result, encoding=self.encoding)
 
